@@ -45,6 +45,8 @@ type Engine struct {
 	inlineFuncs   []string
 	sentinels     map[string]int
 	quantMode     string
+	constGlobals     map[*ssa.Global]*ssa.Const
+	constGlobalsDone map[*ssa.Global]bool
 }
 
 func (eng *Engine) sentinelID(name string) int {
@@ -654,7 +656,11 @@ func (e *Enc) useLemma(name string, args []CExpr, ctx *ExprCtx) {
 			pkg = lp.Pkg.Types
 		}
 		lctx := &ExprCtx{e: e, st: e.entry, old: e.entry, bound: bound, pkg: pkg}
-		e.s.Assume(lctx.boolExpr(lm.Body.Expr))
+		body := lctx.boolExpr(lm.Body.Expr)
+		if lm.BV {
+			body = Imp(bvParamRanges(lm, bound), body)
+		}
+		e.s.Assume(body)
 		if lm.Axiom {
 			e.note("axiom (assumed, instantiated): " + lm.Name + ": " + lm.Body.Text)
 		} else {
@@ -663,4 +669,80 @@ func (e *Enc) useLemma(name string, args []CExpr, ctx *ExprCtx) {
 		return
 	}
 	panic("uses: unknown lemma/axiom " + name)
+}
+
+// constGlobal: the constant a package-level variable is initialised with, provided no function of
+// its package other than init assigns it.
+func (eng *Engine) constGlobal(g *ssa.Global) *ssa.Const {
+	if eng.constGlobals == nil {
+		eng.constGlobals = map[*ssa.Global]*ssa.Const{}
+		eng.constGlobalsDone = map[*ssa.Global]bool{}
+	}
+	if eng.constGlobalsDone[g] {
+		return eng.constGlobals[g]
+	}
+	eng.constGlobalsDone[g] = true
+	pkg := g.Pkg
+	if pkg == nil {
+		return nil
+	}
+	var initVal *ssa.Const
+	ok := true
+	var scan func(fn *ssa.Function, isInit bool)
+	scan = func(fn *ssa.Function, isInit bool) {
+		for _, b := range fn.Blocks {
+			for _, in := range b.Instrs {
+				switch x := in.(type) {
+				case *ssa.Store:
+					if x.Addr == ssa.Value(g) {
+						c, isC := x.Val.(*ssa.Const)
+						if isInit && isC && initVal == nil {
+							initVal = c
+						} else {
+							ok = false
+						}
+					}
+				default:
+					// address of the global taken for anything but a load
+					for _, op := range in.Operands(nil) {
+						if *op == ssa.Value(g) {
+							if u, isLoad := in.(*ssa.UnOp); isLoad && u.X == ssa.Value(g) {
+								continue
+							}
+							if _, isDbg := in.(*ssa.DebugRef); isDbg {
+								continue
+							}
+							ok = false
+						}
+					}
+				}
+			}
+		}
+		for _, a := range fn.AnonFuncs {
+			scan(a, false)
+		}
+	}
+	for _, m := range pkg.Members {
+		if fn, isFn := m.(*ssa.Function); isFn {
+			scan(fn, fn.Name() == "init")
+		}
+		if tp, isT := m.(*ssa.Type); isT {
+			ms := eng.prog.MethodSets.MethodSet(tp.Type())
+			for i := 0; i < ms.Len(); i++ {
+				if f := eng.prog.MethodValue(ms.At(i)); f != nil && f.Pkg == pkg {
+					scan(f, false)
+				}
+			}
+			ms = eng.prog.MethodSets.MethodSet(types.NewPointer(tp.Type()))
+			for i := 0; i < ms.Len(); i++ {
+				if f := eng.prog.MethodValue(ms.At(i)); f != nil && f.Pkg == pkg {
+					scan(f, false)
+				}
+			}
+		}
+	}
+	if ok && initVal != nil {
+		eng.constGlobals[g] = initVal
+	}
+	return eng.constGlobals[g]
 }
